@@ -1,9 +1,11 @@
 import GlueVerif.Sexp
 import GlueVerif.Model.C12Registry
 import GlueVerif.Model.Versioned
+import GlueVerif.Model.C12Records
 import GlueVerif.Generated.C12Tables
 /-! Line-protocol driver for C12 (protocol versions, registries, rename table). -/
 open GlueVerif GlueVerif.Sexp GlueVerif.C12 GlueVerif.Versioned GlueVerif.Generated.C12
+open GlueVerif.C12.Records
 
 def bad (msg : String) : String := driverError msg
 
@@ -79,6 +81,155 @@ def regSubset (live gen : Sexp) : Bool :=
   match live, gen with
   | .list ls, .list gs => ls.all fun l => gs.contains l
   | _, _ => false
+
+
+/-! ### round trips of Data / DataCollection records -/
+
+def atom? : Sexp → Option String
+  | .atom s => some s
+  | _ => none
+
+def style? : Sexp → Option Style
+  | .list [c, s, a] => do some ⟨← c.toInt?, ← s.toInt?, some (← a.toInt?)⟩
+  | _ => none
+
+def kind? : Sexp → Option Kind
+  | .atom "int" => some .int
+  | .atom "half" => some .half
+  | .atom "cat" => some .cat
+  | _ => none
+
+def comp? : Sexp → Option Comp
+  | .list [.atom l, k, vs] => do some ⟨l, ← kind? k, ← vs.toInts?⟩
+  | _ => none
+
+def der? : Sexp → Option Der
+  | .list [.atom l, .atom "dbl", .atom a] => some (.dbl l a)
+  | .list [.atom l, .atom "sum", .atom a, .atom b] => some (.sum l a b)
+  | _ => none
+
+partial def st? : Sexp → Option St
+  | .list [.atom "gt", .atom c, t] => do some (.gt c (← t.toInt?))
+  | .list [.atom "range", .atom c, lo, hi] => do some (.range c (← lo.toInt?) (← hi.toInt?))
+  | .list [.atom "and", a, b] => do some (.and (← st? a) (← st? b))
+  | .list [.atom "or", a, b] => do some (.or (← st? a) (← st? b))
+  | .list [.atom "not", a] => do some (.not (← st? a))
+  | _ => none
+
+def sel? : Sexp → Option Sel
+  | .list [.atom l, o, st, sty] => do some ⟨l, ← o.toNat?, ← st? st, ← style? sty⟩
+  | _ => none
+
+def link? : Sexp → Option Link
+  | .list [i, .atom a, j, .atom b] => do some ⟨← i.toNat?, a, ← j.toNat?, b⟩
+  | _ => none
+
+def atoms? (e : Sexp) : Option (List String) := do (← e.toList?).mapM atom?
+
+def join? : Sexp → Option (Nat × List String × Nat × List String)
+  | .list [i, aa, j, bb] => do some (← i.toNat?, ← atoms? aa, ← j.toNat?, ← atoms? bb)
+  | _ => none
+
+def metaKV? : Sexp → Option (String × String)
+  | .list [.atom k, .atom v] => some (k, v)
+  | _ => none
+
+/-- the object `build(recipe, cv)` constructs on the Python side -/
+def buildDC (cv : Nat) (recipe : Sexp) : Option DCO :=
+  match recipe with
+  | .list [.list datas, .list sels, .list links, .list joins, sgc] => do
+    let sels ← sels.mapM sel?
+    let links ← links.mapM link?
+    let joins ← joins.mapM join?
+    let sgc ← sgc.toNat?
+    let ds ← datas.zipIdx.mapM fun (e, k) =>
+      match e with
+      | .list [.atom label, .list comps, .list ders, sty, .list metaKV, .atom coords] => do
+        let comps ← comps.mapM comp?
+        let ders ← ders.mapM der?
+        let sty ← style? sty
+        let metaKV ← metaKV.mapM metaKV?
+        let js : List Join := joins.filterMap fun (i, aa, j, bb) =>
+          if i = k then some ⟨j, aa, bb⟩ else if j = k then some ⟨i, bb, aa⟩ else none
+        let subs := if cv = 1 then sels.filter (·.owner = k) else sels
+        some ({ label := label, comps := comps, derived := ders, subsets := subs, style := sty,
+                joins := js, uuid := some k, metaKV := metaKV, coords := coords == "id" } : DataO)
+      | _ => none
+    let groups := if cv = 1 then [] else sels.map fun s => (s.label, s.style)
+    some { data := ds, links := links, groups := groups, sgCount := groups.length + sgc }
+  | _ => none
+
+def styleSx (s : Style) : Sexp :=
+  .list [ofInt s.col, ofInt s.size, match s.alpha4 with | some a => ofInt a | none => .atom "frac"]
+
+def kindSx : Kind → Sexp
+  | .int => .atom "int"
+  | .half => .atom "half"
+  | .cat => .atom "cat"
+
+def insertBy (lt : Sexp → Sexp → Bool) (x : Sexp) : List Sexp → List Sexp
+  | [] => [x]
+  | y :: r => if lt x y then x :: y :: r else y :: insertBy lt x r
+
+def keyOf : Sexp → String
+  | .list (.atom k :: _) => k
+  | _ => ""
+
+def sortByKey (xs : List Sexp) : List Sexp :=
+  xs.foldl (fun acc x => insertBy (fun a b => keyOf a < keyOf b) x acc) []
+
+/-- what `observe(dc)` returns on the Python side; `careUuid = false` blanks the uuid flag -/
+def observeDC (x : DCO) (careUuid : Bool) : Sexp :=
+  let datas := x.data.zipIdx.map fun (d, k) =>
+    let main := d.comps.map fun c => Sexp.list [.atom c.label, kindSx c.kind, ofInts c.vals]
+    let der := d.derived.map fun dr => match derVals d dr with
+      | some (kd, vs) => Sexp.list [.atom dr.label, kindSx kd, ofInts vs]
+      | none => Sexp.list [.atom dr.label, .atom "bad"]
+    let subs := d.subsets.map fun s =>
+      let m : Sexp := match maskOn x k s with
+        | some bs => .list (bs.map fun b => .atom (if b then "1" else "0"))
+        | none => .atom "inc"
+      Sexp.list [.atom s.label, m, styleSx s.style]
+    let kj := sortByKey (d.joins.map fun j =>
+      Sexp.list [.atom ((x.data[j.other]?.map (·.label)).getD "?"), .list (j.own.map .atom), .list (j.theirs.map .atom)])
+    let metaKV := sortByKey (d.metaKV.map fun (a, b) => Sexp.list [.atom a, .atom b])
+    let world : Sexp := if d.coords then .list [.atom "World_0"] else .list []
+    let uu : Sexp := if !careUuid then .atom "N" else ofBool (d.uuid == some k)
+    Sexp.list [.atom d.label, .list main, .list der, .list subs, styleSx d.style, .list kj, .list metaKV,
+      ofBool true, .atom (if d.coords then "IdentityCoordinates" else "none"), world,
+      .list [.atom "Pixel_Axis_0_[x]"], uu]
+  .list [.list datas, .list (x.groups.map fun (l, s) => Sexp.list [.atom l, styleSx s]),
+    ofNat x.sgCount, ofNat x.links.length]
+
+/-- blank the uuid flag of every dataset in a Python observation -/
+def blankUuid : Sexp → Sexp
+  | .list [.list datas, g, n, e] =>
+    .list [.list (datas.map fun d => match d with
+      | .list xs => if xs.length == 12 then .list (xs.take 11 ++ [.atom "N"]) else d
+      | a => a), g, n, e]
+  | e => e
+
+def rtStep (case pyout : Sexp) : String :=
+  match case with
+  | .list [dvS, cvS, recipe] =>
+    match dvS.toNat?, cvS.toNat? with
+    | some dv, some cv =>
+      match buildDC cv recipe with
+      | none => bad "rt-recipe"
+      | some orig =>
+        let care := decide (4 ≤ dv)
+        let rep := representable cv dv orig
+        let impl : Sexp := match saveDC cv dv orig with
+          | none => .atom "save-error"
+          | some r => match loadDC r with
+            | none => .atom "load-error"
+            | some y => observeDC y care
+        let spec : Sexp := observeDC (projectDC cv dv orig) care
+        let accepts (o : Sexp) : Bool := if rep then o == spec else o == .atom "save-error"
+        let py := if care then pyout else blankUuid pyout
+        driverResult impl (accepts py) (accepts impl) rep s!"d{dv}c{cv}{if rep then "" else "-unrepresentable"}"
+    | _, _ => bad "rt-versions"
+  | _ => bad "rt-case"
 
 /-! ### the chase on names -/
 
@@ -170,6 +321,7 @@ def step (line : String) : String :=
         else if inPackage rs then "key-to-package" else "key-to-external"
       driverResult (.list [.atom rs, .atom status]) (specOn pyName pyStatus)
         (specOn (some rs) (some status)) (!captured) br
+  | some (.list [.atom "rt", case, pyout]) => rtStep case pyout
   | _ => bad "unknown-family"
 
 def main : IO Unit := driverLoop step
